@@ -601,3 +601,21 @@ func init() {
 		})
 	}
 }
+
+func init() {
+	B := "github.com/cosmos/cosmos-sdk/types/bech32."
+	reg(B+"DecodeAndConvert", func(in *Interp, fn *ssa.Function, a []Value, pos token.Pos) Value {
+		hrp, bz, err := Bech32Decode(strOf(in, a[0]))
+		if err != nil {
+			return tup("", Slice{}, errIface(&ErrVal{Msg: "decoding bech32 failed: " + err.Error()}))
+		}
+		return tup(hrp, sliceOfBytes(bz), Iface{})
+	})
+	reg(B+"ConvertAndEncode", func(in *Interp, fn *ssa.Function, a []Value, pos token.Pos) Value {
+		b, ok := bytesOf(a[1].(Slice).V)
+		if !ok {
+			return tup(&SymStr{Desc: "bech32(symbolic)"}, Iface{})
+		}
+		return tup(Bech32Encode(strOf(in, a[0]), b), Iface{})
+	})
+}
